@@ -298,7 +298,7 @@ Proof.
   - cbn [fst]. npeel nstab_set_running. npeel nstab_park. destruct inc; [apply nstab_upd_task, nkeeps_held|apply nstab_refl].
   - destruct k as [| |c].
     + apply nstab_ret.
-    + destruct inc; [apply nstab_ret|nby_eq].
+    + destruct inc; [apply nstab_ret|]. destruct (ckif_spins _ _ _); [nby_eq|apply nstab_ret].
     + pose proof (nstab_scope_exit h0 s c t inc) as H. destruct (scope_exit s c t inc) as [s1 x]. cbn [fst] in H.
       destruct x; npeel_ret; exact H.
   - npeel_ret. nby_eq.
